@@ -187,21 +187,19 @@ def w_in_playback(props=None, case=None):
         # frame: the decorator's configuration (its fallback alias list) is the same for every call -- it is never modified
         obl.append(Obl('C02/%s/decorator_configuration_not_modified' % U, ('C02', 'C01', 'C09'), s,
                        z3.Implies(Val.is_ref(fr['fallback_aliases']), s.g['seq'][Val.addr(fr['fallback_aliases'])] == s.g['cfg_fb0']), oc))
-        found = 'found_index' in s.g
         kf_exc = [t for t in hk if t['name'] in ('alias_params_resolver', 'fallback_aliases') and t['outcome'][0] == 'raise']
-        if 'possible' in s.g and (case or {}).get('fb') in ('none', 'two'):
-            # C06: the keys looked up are K(resolved alias, captured arguments of THIS call) followed by K(fallback alias, the same captured
-            # arguments) in the decorator's order -- each built by the key function, never derived from another key's text
-            old_ = s.g['old']; ka_ = Val.addr(fr['kwargs'])
-            res_ = [t for t in hk if t['name'] == 'alias_params_resolver' and t['outcome'][0] == 'ret']
-            al_ = Val.s(FA(fr['alias'], res_[0]['outcome'][1])) if res_ else fr['alias']
-            kof = lambda a_: Val.s(KF(a_, fr['capture_args'], fr['static_function'], old_['seq'][Val.addr(fr['args'])], old_['ddom'][ka_], old_['dmap'][ka_]))
-            exp = [kof(al_)] + [kof(Val.s(a_)) for a_ in s.g.get('fb_two', ())]
-            poss = s.g['possible']
-            obl.append(Obl('C06/%s/lookup_keys_are_K_of_the_main_and_the_fallback_aliases_in_order' % U, ('C06', 'C02', 'C01'), s,
-                           z3.And(*[p_ == e_ for p_, e_ in zip(poss, exp)]) if len(poss) == len(exp) else z3.BoolVal(False), oc))
-        if found:
-            nd = [n_ for n_ in s.g['notes'] if n_[0] == 'get_data']
+        # ---- what was looked up, stated over the STATE (the playback recording's key set at entry), not over how the code searches
+        old_ = s.g['old']; ka_ = Val.addr(fr['kwargs']); pbr = old_.get('pb')
+        present = lambda k_: old_['ddom'][Val.addr(pbr)][k_]
+        res_ = [t for t in hk if t['name'] == 'alias_params_resolver' and t['outcome'][0] == 'ret']
+        al_ = Val.s(FA(fr['alias'], res_[0]['outcome'][1])) if res_ else fr['alias']
+        kof = lambda a_: Val.s(KF(a_, fr['capture_args'], fr['static_function'], old_['seq'][Val.addr(fr['args'])], old_['ddom'][ka_], old_['dmap'][ka_]))
+        mk_ = kof(al_)
+        # the complete, ordered list of lookup keys is known when the decorator has no fallback aliases or a literal list of two
+        exp = ([mk_] + [kof(Val.s(a_)) for a_ in s.g.get('fb_two', ())]) if (case or {}).get('fb') in ('none', 'two') else None
+        nd = [n_ for n_ in s.g['notes'] if n_[0] == 'get_data']
+        looked = bool(nd) or any(n_[0] == 'get_data_direct' for n_ in s.g['notes'])
+        if looked:
             if not nd:
                 # C11: what replay hands out comes from a copying read of the entry, never from the entry itself
                 obl.append(Obl('C02/%s/present/value_read_from_recording' % U, ('C02', 'C11'), s, z3.BoolVal(False), oc)); continue
@@ -216,16 +214,20 @@ def w_in_playback(props=None, case=None):
             obl.append(Obl('C02/%s/present/recorded_key_error_not_treated_as_missing' % U, 'C02', s,
                            z3.Implies(z3.Not(norke), z3.BoolVal(len(b) == 0 and not any(t['name'] == 'value_when_missing' for t in hk))), oc,
                            finding='C02-recorded-key-error'))
-            # first present key wins: the key consulted is possible_keys[j] with j the first present index
-            obl.append(Obl('C02/%s/present/first_present_key_is_used' % U, ('C02', 'C01'), s, nd[0][2] == s.g['found_key'], oc))
-            # ... stated independently of how the code searches: whenever the main key (alias + captured arguments of THIS call) is in the
-            # recording it is the one consulted; a fallback key is consulted only when the main key is absent
-            old_ = s.g['old']; ka_ = Val.addr(fr['kwargs']); pbr = old_.get('pb')
-            res_ = [t for t in hk if t['name'] == 'alias_params_resolver' and t['outcome'][0] == 'ret']
-            al_ = Val.s(FA(fr['alias'], res_[0]['outcome'][1])) if res_ else fr['alias']
-            mk_ = Val.s(KF(al_, fr['capture_args'], fr['static_function'], old_['seq'][Val.addr(fr['args'])], old_['ddom'][ka_], old_['dmap'][ka_]))
+            # first present key wins (C02 / C01), and the keys are K(resolved alias, captured arguments of THIS call) followed by
+            # K(fallback alias, the same captured arguments) in the decorator's order, each built by the key function (C06)
+            if exp is not None:
+                fk = exp[-1]
+                for e_ in reversed(exp[:-1]):
+                    fk = z3.If(present(e_), e_, fk)
+                obl.append(Obl('C02/%s/present/first_present_key_is_used' % U, ('C02', 'C01', 'C06'), s,
+                               z3.And(z3.Or(*[present(e_) for e_ in exp]), nd[0][2] == fk), oc))
+            else:
+                obl.append(Obl('C02/%s/present/first_present_key_is_used' % U, ('C02', 'C01', 'C06'), s, present(nd[0][2]), oc))
+            # ... whenever the main key (alias + captured arguments of THIS call) is in the recording it is the one consulted; a fallback key
+            # is consulted only when the main key is absent
             obl.append(Obl('C02/%s/present/main_key_has_priority_over_fallbacks' % U, ('C02', 'C01'), s,
-                           z3.Implies(old_['ddom'][Val.addr(pbr)][mk_], nd[0][2] == mk_), oc))
+                           z3.Implies(present(mk_), nd[0][2] == mk_), oc))
             if oc[0] == 'raise':
                 rest = [t for t in hk if t['name'] == 'restore_input_from_recording' and t['outcome'][0] == 'raise']
                 obl.append(Obl('C01/%s/replay/raises_copy_of_recorded_exception' % U, ('C01', 'C11'), s,
@@ -253,8 +255,9 @@ def w_in_playback(props=None, case=None):
             obl.append(Obl('C02/%s/keyfail/body_not_called' % U, 'C02', s, z3.BoolVal(len(b) == 0), oc)); continue
         if kf_exc and oc[0] == 'raise' and s.entails(oc[1] == kf_exc[0]['outcome'][1]):
             obl.append(Obl('C02/%s/keyfail/interrupt_from_hook_only' % U, 'C02', s, z3.Not(is_exc(oc[1])), oc)); continue
-        if 'none_present' not in s.g:
-            obl.append(Obl('C02/%s/exit_without_lookup' % U, ('C02', 'C01'), s, z3.BoolVal(False), oc)); continue
+        # no entry was read: legitimate only when none of the lookup keys is in the recording (the missing-key policy then applies)
+        obl.append(Obl('C02/%s/missing/policy_applies_only_when_no_lookup_key_is_present' % U, ('C02', 'C01', 'C06'), s,
+                       z3.And(*[z3.Not(present(e_)) for e_ in exp]) if exp is not None else z3.Not(present(mk_)), oc))
         sub_calls = [t for t in hk if t['name'] == 'value_when_missing']
         if len(b) == 1:
             obl.append(Obl('C02/%s/missing/run_original_only_if_opted_in' % U, 'C02', s, run_orig, oc))
